@@ -348,6 +348,37 @@ func content(m *packet.BGPMessage, addPath bool) string {
 	return sb.String()
 }
 
+// truncateASNs returns a copy of the message whose AS_PATH ASNs are reduced modulo 65536
+func truncateASNs(m *packet.BGPMessage) *packet.BGPMessage {
+	u, ok := m.Body.(*packet.BGPUpdate)
+	if !ok {
+		return m
+	}
+	cu := *u
+	var first, last *packet.PathAttribute
+	for pa := u.PathAttributes; pa != nil; pa = pa.Next {
+		c := pa.Copy()
+		if v, ok := pa.Value.(*types.ASPath); ok && v != nil {
+			np := make(types.ASPath, len(*v))
+			for i, sg := range *v {
+				np[i] = types.ASPathSegment{Type: sg.Type, ASNs: make([]uint32, len(sg.ASNs))}
+				for j, a := range sg.ASNs {
+					np[i].ASNs[j] = a & 0xffff
+				}
+			}
+			c.Value = &np
+		}
+		if first == nil {
+			first = c
+		} else {
+			last.Next = c
+		}
+		last = c
+	}
+	cu.PathAttributes = first
+	return &packet.BGPMessage{Header: m.Header, Body: &cu}
+}
+
 // which representability limit the structure touches (signature of a round trip failure)
 func riskClass(m *packet.BGPMessage, k int) string {
 	u, ok := m.Body.(*packet.BGPUpdate)
@@ -419,6 +450,10 @@ func do(id string, k int, safi uint8, m *packet.BGPMessage) {
 		return
 	}
 	want := content(m, k&1 != 0) // before serializing: the serializers set flags in the structure
+	wantTrunc := want
+	if k&2 == 0 { // what a 2-byte-ASN session can carry at best: every ASN modulo 65536 (known finding)
+		wantTrunc = content(truncateASNs(m), k&1 != 0)
+	}
 	input := fmt.Sprintf("%d %d %s", k, safi, bgpx.TokString(toks))
 	var b []byte
 	var err error
@@ -461,6 +496,9 @@ func do(id string, k int, safi uint8, m *packet.BGPMessage) {
 		return
 	}
 	got := content(dm, k&1 != 0)
+	if got != want && class == "asn-over-65535-on-2-byte-session" && got != wantTrunc {
+		class = "beyond-asn-truncation" // differs by more than the known truncation: not the known finding
+	}
 	if got != want {
 		nviol++
 		cut := func(s string) string {
